@@ -137,6 +137,21 @@ def atom_axioms(z, atoms, extra_pairs=True):
             ax.append(x > 0)
         elif name.startswith("uf:") or name in ("log", "pow", "asin", "acos", "atan"):
             pass
+    # uninterpreted functions: congruence (Ackermann) between applications of the same symbol
+    ufs = {}
+    for i in seen:
+        info = T.ATOM_LIST[i]
+        if info[0] == "fn" and info[1].startswith("uf:"):
+            ufs.setdefault((info[1], len(info[2])), []).append(i)
+    for (nm, ar), lst in ufs.items():
+        for a_ in range(len(lst)):
+            for b_ in range(a_ + 1, len(lst)):
+                ia, ib = lst[a_], lst[b_]
+                eqs = []
+                for ta, tb in zip(T.ATOM_LIST[ia][2], T.ATOM_LIST[ib][2]):
+                    (na, da), (nb, db) = T.nf(ta), T.nf(tb)
+                    eqs.append(z.poly(na) * z.poly(db) == z.poly(nb) * z.poly(da))
+                ax.append(z3.Implies(z3.And(eqs), z.atom(ia) == z.atom(ib)))
     # atan2(-y,-x) against atan2(y,x): they differ by pi (sign fixed by the half plane)
     at2 = [(i, T.ATOM_LIST[i][2]) for i in seen if T.ATOM_LIST[i][0] == "fn" and T.ATOM_LIST[i][1] == "atan2"]
     for a_i, (ya, xa) in at2:
